@@ -1,6 +1,6 @@
 (* CCFB (rfc8888.go) and REMB (receiver_estimated_maximum_bitrate.go) against the RFC reference
    encoders of Spec/Enc.v: properties C02 / C03 / C08 / C14 / C16. *)
-From RTCP Require Import Proofs.Tactics Proofs.HeaderProofs Model.Header Model.Reports Model.Ccfb Model.Remb Spec.Enc.
+From RTCP Require Import Proofs.Tactics Proofs.HeaderProofs Model.Header Model.Reports Model.Ccfb Model.Remb Spec.Enc Spec.Laws.
 Local Open Scope N_scope.
 
 (* ------------------------------------------------------------------------------------------ *)
@@ -836,8 +836,6 @@ Qed.
 (* ------------------------------------------------------------------------------------------ *)
 (* REMB decoding of the RFC layout (C02): Unmarshal (enc p) = the documented quantisation q_REMB *)
 (* ------------------------------------------------------------------------------------------ *)
-From RTCP Require Import Spec.Laws.
-
 Local Open Scope Z_scope.
 Lemma remb_dec_bits_exact e m : 0 <= e < 64 -> 0 < m < 2 ^ 18 -> remb_dec e m = f32_bits_exact m e.
 Proof.
@@ -860,24 +858,163 @@ Local Open Scope N_scope.
 Lemma get_be4_self x : x < 4294967296 -> get_be_at 4 (be 4 x) 0 = Ok x.
 Proof. intros H. rewrite <- (app_nil_r (be 4 x)). apply (get_be_at_app 4 [] x []); [reflexivity|exact H]. Qed.
 
+Lemma slice_be4 pre x rest : slice (pre ++ be 4 x ++ rest) (len pre) (len pre + 4) = Ok (be 4 x).
+Proof.
+  rewrite slice_ok; [| lia | rewrite !len_app, len_be; lia].
+  replace (len pre + 4 - len pre) with 4 by lia. f_equal.
+  unfold len. rewrite Nat2N.id, skipn_app, skipn_all, Nat.sub_diag. cbn [skipn app].
+  rewrite firstn_app, be_length. change (N.to_nat 4 - 4)%nat with 0%nat. rewrite firstn_O, app_nil_r.
+  apply firstn_all2. rewrite be_length. apply Nat.le_refl.
+Qed.
+
+Lemma nl_cons {A} (x : A) r : nl (x :: r) = 1 + nl r.
+Proof. unfold nl. cbn [length]. lia. Qed.
+
 Lemma ssrcs_read_enc l : forall pre fuel, forallb (fits 32) l = true -> (length l < fuel)%nat ->
   remb_ssrcs_read fuel (pre ++ List.concat (map (be 4) l)) (len pre) (len pre + 4 * nl l) = Ok l.
 Proof.
   induction l as [|x r IH]; intros pre fuel HD Hf.
-  - destruct fuel as [|f]; [cbn [length] in Hf; lia|]. cbn [remb_ssrcs_read]. unfold nl. cbn [length].
-    destruct (N.ltb_spec (len pre) (len pre + 4 * N.of_nat 0)); [lia|reflexivity].
-  - destruct fuel as [|f]; [lia|]. cbn [length] in Hf. cbn [forallb] in HD. apply andb_true_iff in HD as [Hx Hr].
-    unfold fits in Hx. change (2 ^ 32) with 4294967296 in Hx.
-    cbn [remb_ssrcs_read map List.concat].
-    assert (Hnl : nl (x :: r) = 1 + nl r) by (unfold nl; cbn [length]; lia). rewrite Hnl.
+  - destruct fuel as [|f]; [inversion Hf|]. cbn [remb_ssrcs_read]. change (nl (@nil N)) with 0.
+    destruct (N.ltb_spec (len pre) (len pre + 4 * 0)); [lia|reflexivity].
+  - destruct fuel as [|f]; [inversion Hf|]. apply Nat.succ_lt_mono in Hf.
+    change (forallb (fits 32) (x :: r)) with (fits 32 x && forallb (fits 32) r) in HD.
+    apply andb_true_iff in HD as [Hx Hr]. apply N.ltb_lt in Hx.
+    assert (Hx' : x < 4294967296) by exact Hx.
+    change (List.concat (map (be 4) (x :: r))) with (be 4 x ++ List.concat (map (be 4) r)).
+    rewrite nl_cons. cbn [remb_ssrcs_read].
     destruct (N.ltb_spec (len pre) (len pre + 4 * (1 + nl r))) as [_|A]; [|lia].
-    rewrite slice_ok by (rewrite ?len_app, ?len_be; cbn [N.of_nat Pos.of_succ_nat Pos.succ]; lia). cbn [bind].
-    replace (len pre + 4 - len pre) with 4 by lia. change (N.to_nat 4) with 4%nat.
-    unfold len at 1. rewrite Nat2N.id, skipn_app, skipn_all, Nat.sub_diag. cbn [skipn app].
-    rewrite firstn_app, be_length, Nat.sub_diag, firstn_O, app_nil_r.
-    rewrite (firstn_all2 (be 4 x)) by (rewrite be_length; lia).
-    rewrite get_be4_self by lia. cbn [bind].
+    rewrite slice_be4. cbn [bind]. rewrite get_be4_self by exact Hx'. cbn [bind].
     replace (len pre + 4) with (len (pre ++ be 4 x)) by (rewrite len_app, len_be; reflexivity).
-    replace (len pre + 4 * (1 + nl r)) with (len (pre ++ be 4 x) + 4 * nl r) by (rewrite len_app, len_be; cbn [N.of_nat Pos.of_succ_nat Pos.succ]; lia).
-    rewrite app_assoc. rewrite IH; [reflexivity|exact Hr|lia].
+    replace (len pre + 4 * (1 + nl r)) with (len (pre ++ be 4 x) + 4 * nl r) by (rewrite len_app, len_be; lia).
+    rewrite app_assoc. rewrite IH; [reflexivity|exact Hr|exact Hf].
 Qed.
+
+Lemma be4_bytes x : be 4 x = [n2b (x / 256 / 256 / 256); n2b (x / 256 / 256); n2b (x / 256); n2b x].
+Proof. reflexivity. Qed.
+
+Lemma REMB_unmarshal_wire L s n X T :
+  L < 65536 -> u16 (u16 (L + 1) * 4) = 20 + 4 * n -> s < 4294967296 -> n < 256 -> X < 16777216 -> len T = 4 * n ->
+  REMB_unmarshal ([n2b 143; n2b 206] ++ be 2 L ++ be 4 s ++ [x00; x00; x00; x00] ++ [n2b 82; n2b 69; n2b 77; n2b 66]
+                  ++ [n2b n] ++ be 3 X ++ T) =
+  let* ssrcs := remb_ssrcs_read (S (20 + length T)) (([n2b 143; n2b 206] ++ be 2 L ++ be 4 s ++ [x00; x00; x00; x00] ++ [n2b 82; n2b 69; n2b 77; n2b 66]
+                  ++ [n2b n] ++ be 3 X) ++ T) 20 (20 + 4 * n) in
+  Ok {| remb_sender := s; remb_bitrate := Z.to_N (remb_dec (Z.of_N (X / 262144)) (Z.of_N (X mod 262144))); remb_ssrcs := ssrcs |}.
+Proof.
+  intros HL Hsz Hs Hn HX HT.
+  rewrite be2_bytes, be4_bytes, be3_bytes. cbn [app].
+  match goal with |- REMB_unmarshal ?b = _ => assert (Hlen : len b = 20 + 4 * n) by (unfold len in *; cbn [length]; lia) end.
+  unfold REMB_unmarshal. rewrite Hlen.
+  destruct (N.ltb_spec (20 + 4 * n) 20) as [A|_]; [lia|].
+  rewrite !idx_ok by (rewrite Hlen; lia).
+  rewrite !get_be_at_ok by (rewrite Hlen; lia).
+  rewrite slice_ok by (rewrite ?Hlen; lia).
+  change (N.to_nat 0) with 0%nat. change (N.to_nat 1) with 1%nat. change (N.to_nat 2) with 2%nat. change (N.to_nat 4) with 4%nat.
+  change (N.to_nat 8) with 8%nat. change (N.to_nat 12) with 12%nat. change (N.to_nat (16 - 12)) with 4%nat. change (N.to_nat 16) with 16%nat.
+  change (N.to_nat 17) with 17%nat. change (N.to_nat 18) with 18%nat. change (N.to_nat 19) with 19%nat.
+  cbn [nth skipn firstn bind].
+  change (b2n (n2b 143)) with 143. change (b2n (n2b 206)) with 206.
+  change (negb (143 / 64 =? 2)) with false. change (negb (N.land (143 / 32) 1 =? 0)) with false.
+  change (negb (N.land 143 31 =? 15)) with false. change (negb (206 =? 206)) with false. cbv iota.
+  unfold unbe. cbn [fold_left]. rewrite !b2n_n2b. change (b2n x00) with 0.
+  replace ((0 * 256 + (L / 256) mod 256) * 256 + L mod 256) with L by lia. rewrite Hsz.
+  destruct (N.ltb_spec (20 + 4 * n) 20) as [A|_]; [lia|].
+  destruct (N.ltb_spec (20 + 4 * n) (20 + 4 * n)) as [A|_]; [lia|].
+  change ((((0 * 256 + 0) * 256 + 0) * 256 + 0) * 256 + 0 =? 0) with true. cbn [negb].
+  rewrite (proj2 (bytes_eqb_eq _ _) eq_refl). cbn [negb].
+  replace (n mod 256) with n by lia. rewrite N.eqb_refl. cbn [negb].
+  replace ((((0 * 256 + (s / 256 / 256 / 256) mod 256) * 256 + (s / 256 / 256) mod 256) * 256 + (s / 256) mod 256) * 256 + s mod 256)
+    with s by lia.
+  replace ((X / 256 / 256) mod 256 / 4) with (X / 262144) by lia.
+  assert (Em : N.lor (N.lor (N.land ((X / 256 / 256) mod 256) 3 * 65536) ((X / 256) mod 256 * 256)) (X mod 256) = X mod 262144).
+  { rewrite land_3.
+    rewrite (lor_disjoint_add (((X / 256 / 256) mod 256) mod 4 * 65536) ((X / 256) mod 256 * 256) 16)
+      by (change (2 ^ 16) with 65536; lia).
+    rewrite (lor_disjoint_add _ (X mod 256) 8) by (change (2 ^ 8) with 256; lia). lia. }
+  rewrite Em. reflexivity.
+Qed.
+
+(* C02 for REMB: decoding the RFC encoding yields the documented quantisation (bitrate floored to 18 significant bits),
+   provided the bitrate is at least 1 (mantissa 0 is finding F16, see remb_zero_roundtrip_refuted) *)
+Theorem REMB_unmarshal_enc p : D_REMB p = true -> (forall x, remb_floor (remb_bitrate p) = Some x -> (1 <= x)%Z) ->
+  REMB_unmarshal (enc_REMB p) = Ok (q_REMB p).
+Proof.
+  unfold D_REMB, fits. rewrite !andb_true_iff. intros ((((Hs & Hn) & Hss) & Hb) & Hv) H1.
+  destruct (remb_value (remb_bitrate p)) as [[vm ve]|] eqn:HV; [|discriminate].
+  assert (HF : remb_floor (remb_bitrate p) = Some (ifloor vm ve)) by (unfold remb_floor; rewrite HV; reflexivity).
+  pose proof (remb_floor_nonneg _ _ HF) as H0. pose proof (H1 _ HF) as Hge1.
+  pose proof (remb_ref_bounds _ H0) as [Hb1 Hb2]. pose proof (remb_ref_mant_pos _ Hge1) as Hmp.
+  unfold enc_REMB, q_REMB. rewrite HF. destruct (remb_ref (ifloor vm ve)) as [e m]. cbn [fst snd] in Hb1, Hb2, Hmp.
+  apply N.ltb_lt in Hs. change (2 ^ 32) with 4294967296 in Hs. apply N.leb_le in Hn.
+  unfold frame, hdr. rewrite be1_bytes. change (be 4 0) with [x00; x00; x00; x00]. change (n2b (128 + 0 + 15)) with (n2b 143).
+  rewrite !len_app, !len_be, concat_be4_len. unfold len at 1 2 3. cbn [length N.of_nat Pos.of_succ_nat Pos.succ].
+  set (n := nl (remb_ssrcs p)) in *. change (2 ^ 18) with 262144.
+  set (X := Z.to_N e * 262144 + Z.to_N m).
+  assert (HX : X < 16777216) by (unfold X; change (2 ^ 18)%Z with 262144%Z in Hb2; lia).
+  rewrite <- app_assoc.
+  rewrite REMB_unmarshal_wire; [| lia | unfold u16; lia | exact Hs | lia | exact HX | apply concat_be4_len ].
+  match goal with |- context [remb_ssrcs_read _ (?pre ++ _) _ _] => set (P := pre) end.
+  assert (HP : len P = 20) by reflexivity. rewrite <- HP.
+  assert (HT : length (List.concat (map (be 4) (remb_ssrcs p))) = (4 * length (remb_ssrcs p))%nat).
+  { pose proof (concat_be4_len (remb_ssrcs p)) as C. unfold len, nl in C. lia. }
+  rewrite ssrcs_read_enc; [| exact Hss | rewrite HT; lia ]. cbn [bind].
+  assert (E1 : X / 262144 = Z.to_N e) by (unfold X; change (2 ^ 18)%Z with 262144%Z in Hb2; lia).
+  assert (E2 : X mod 262144 = Z.to_N m) by (unfold X; change (2 ^ 18)%Z with 262144%Z in Hb2; lia).
+  rewrite E1, E2, !Z2N.id by lia. rewrite remb_dec_bits_exact by lia. reflexivity.
+Qed.
+
+(* Finding F16 at packet level: bitrate 0 is written with mantissa 0 and comes back as 2^23 *)
+Lemma remb_zero_roundtrip_refuted :
+  exists p, D_REMB p = true /\ remb_bitrate p = 0 /\ REMB_unmarshal (enc_REMB p) <> Ok (q_REMB p).
+Proof.
+  exists {| remb_sender := 1; remb_bitrate := 0; remb_ssrcs := [2] |}.
+  split; [vm_compute; reflexivity|]. split; [reflexivity|]. vm_compute. intros X. discriminate X.
+Qed.
+
+(* C16, other direction for the metric-block unit: every decoded block is in the domain; a received word is canonical *)
+Lemma CCMetric_unmarshal_in_D b0 b1 m : CCMetric_unmarshal [b0; b1] = Ok m -> D_metric m = true.
+Proof.
+  destruct (N.lt_ge_cases (b2n b0) 128) as [H|H].
+  - rewrite CCMetric_unmarshal_not_received by exact H. intros E. injection E as <-. reflexivity.
+  - rewrite CCMetric_unmarshal_received by exact H. intros E. injection E as <-.
+    unfold D_metric, fits. cbn [mb_received mb_ecn mb_offset]. change (2 ^ 2) with 4. change (2 ^ 13) with 8192.
+    apply andb_true_iff. split; apply N.ltb_lt; lia.
+Qed.
+
+Lemma CCMetric_enc_unmarshal b0 b1 m : 128 <= b2n b0 -> CCMetric_unmarshal [b0; b1] = Ok m -> enc_metric m = [b0; b1].
+Proof.
+  intros H. rewrite CCMetric_unmarshal_received by exact H. intros E. injection E as <-.
+  unfold enc_metric. cbn [mb_received mb_ecn mb_offset]. rewrite be2_bytes.
+  pose proof (b2n_lt b0) as H0. pose proof (b2n_lt b1) as H1.
+  replace (32768 + (b2n b0 / 32) mod 4 * 8192 + (b2n b0 * 256 + b2n b1) mod 8192) with (b2n b0 * 256 + b2n b1) by lia.
+  replace ((b2n b0 * 256 + b2n b1) / 256) with (b2n b0) by lia. rewrite n2b_b2n.
+  rewrite (n2b_mod (b2n b0 * 256 + b2n b1) (b2n b1)) by lia. rewrite n2b_b2n. reflexivity.
+Qed.
+
+(* ------------------------------------------------------------------------------------------ *)
+Print Assumptions CCMetric_marshal_spec.
+Print Assumptions CCMetric_unmarshal_enc.
+Print Assumptions CCMetric_unmarshal_not_received.
+Print Assumptions CCMetric_unmarshal_in_D.
+Print Assumptions CCMetric_enc_unmarshal.
+Print Assumptions CCBlock_marshal_spec.
+Print Assumptions CCBlock_marshal_limit.
+Print Assumptions ccfb_one_metric_refuted.
+Print Assumptions CCFB_marshal_spec.
+Print Assumptions CCBlock_unmarshal_enc.
+Print Assumptions CCFB_unmarshal_enc.
+Print Assumptions remb_encode_floor.
+Print Assumptions remb_encode_le.
+Print Assumptions remb_ulp.
+Print Assumptions remb_encode_saturates.
+Print Assumptions remb_encode_mono.
+Print Assumptions remb_encode_exact_on_representable.
+Print Assumptions remb_negative_rejected.
+Print Assumptions remb_decode_bits.
+Print Assumptions remb_decode_exact.
+Print Assumptions remb_decode_zero.
+Print Assumptions remb_decode_zero_refuted.
+Print Assumptions remb_enc_dec.
+Print Assumptions REMB_marshal_spec.
+Print Assumptions REMB_marshal_limit.
+Print Assumptions REMB_unmarshal_enc.
+Print Assumptions remb_zero_roundtrip_refuted.
